@@ -10,6 +10,10 @@
 //!    the body bytes parsed with serde_json; a unique marker used as internal
 //!    message is searched for in every response byte.
 //!  * `Live1`/`Batch`: a live server; every response's x-request-id header
+//!    (one request in three carries an x-request-id REQUEST header of the
+//!    client's: a UUID repeated across requests and connections, an id the
+//!    server handed out before, other spellings, junk, empty, twice — none of
+//!    which may become the request id)
 //!    against the id the handler saw and the id in a framework error body,
 //!    uniqueness over the whole batch.
 use dropshot::{
@@ -47,7 +51,15 @@ enum Case {
     Status { lo: u32, hi: u32 },
     Ctor { k: CtorSpec, hdrs: Vec<(Vec<u8>, Vec<u8>)>, id: String },
     /// one live request of outcome class `cls` (replayed on a fresh server)
-    Live1 { cls: u8, i: u64, status: u16, own: Vec<String> },
+    /// `sent`: x-request-id values the client puts on the request
+    Live1 {
+        cls: u8,
+        i: u64,
+        status: u16,
+        own: Vec<String>,
+        #[serde(default)]
+        sent: Vec<String>,
+    },
     /// a whole live batch (only its uniqueness line carries this case)
     Batch { n: usize, seed: u64 },
 }
@@ -602,20 +614,64 @@ fn start_servers(rt: &tokio::runtime::Runtime) -> Servers {
 }
 
 /// (use the versioned server?, request bytes, expected status)
-fn live_request(cls: u8, status: u16, own: &[String]) -> (bool, Vec<u8>, u16) {
+fn live_request(cls: u8, status: u16, own: &[String], sent: &[String]) -> (bool, Vec<u8>, u16) {
     let ownq = if own.is_empty() { String::new() } else { format!("&own={}", own.join(",")) };
+    // the client's own x-request-id request header(s)
+    let mut h: Vec<(&str, &str)> = sent.iter().map(|v| ("X-Request-Id", v.as_str())).collect();
+    if cls == 9 {
+        h.push(("x-api-version", "not-a-version"));
+    }
     match cls {
-        0 => (false, live::request("GET", "/ok?x=1", &[], None), 200),
-        1 => (false, live::request("GET", &format!("/raw?status={}{}", status, ownq), &[], None), status),
-        2 | 3 => (false, live::request("GET", &format!("/err?status={}{}", status, ownq), &[], None), status),
-        4 => (false, live::request("GET", &format!("/custom?status={}", status), &[], None), status),
-        5 => (false, live::request("GET", "/qh?n=notanumber", &[], None), 400),
-        6 => (false, live::request("GET", "/qc?n=notanumber", &[], None), 400),
-        7 => (false, live::request("GET", "/no/such/route", &[], None), 404),
-        8 => (false, live::request("PUT", "/ok", &[], Some(b"")), 405),
-        9 => (true, live::request("GET", "/ok", &[("x-api-version", "not-a-version")], None), 400),
-        10 => (false, live::request("GET", "/tr", &[], None), 500),
+        0 => (false, live::request("GET", "/ok?x=1", &h, None), 200),
+        1 => (false, live::request("GET", &format!("/raw?status={}{}", status, ownq), &h, None), status),
+        2 | 3 => (false, live::request("GET", &format!("/err?status={}{}", status, ownq), &h, None), status),
+        4 => (false, live::request("GET", &format!("/custom?status={}", status), &h, None), status),
+        5 => (false, live::request("GET", "/qh?n=notanumber", &h, None), 400),
+        6 => (false, live::request("GET", "/qc?n=notanumber", &h, None), 400),
+        7 => (false, live::request("GET", "/no/such/route", &h, None), 404),
+        8 => (false, live::request("PUT", "/ok", &h, Some(b"")), 405),
+        9 => (true, live::request("GET", "/ok", &h, None), 400),
+        10 => (false, live::request("GET", "/tr", &h, None), 500),
         _ => panic!("bad live class"),
+    }
+}
+
+/// a UUID every client thread repeats on many requests
+const CLIENT_UUID: &str = "6f1c2d3e-4a5b-4c6d-8e7f-8091a2b3c4d5";
+
+/// The x-request-id request header(s) of one live request: (tag, values).
+/// Two requests in three carry none.
+fn pick_sent(rng: &mut Rng, last_id: &Option<String>) -> (&'static str, Vec<String>) {
+    if rng.below(3) != 0 {
+        return ("none", vec![]);
+    }
+    let fresh = |rng: &mut Rng| {
+        let mut b = [0u8; 16];
+        b[..8].copy_from_slice(&rng.next().to_le_bytes());
+        b[8..].copy_from_slice(&rng.next().to_le_bytes());
+        uuid::Builder::from_random_bytes(b).into_uuid()
+    };
+    // a spelling of either the repeated UUID or a client-chosen new one
+    let base = |rng: &mut Rng| {
+        if rng.chance(1, 2) { uuid::Uuid::parse_str(CLIENT_UUID).unwrap() } else { fresh(rng) }
+    };
+    match rng.below(11) {
+        0 | 1 => ("repeated-uuid", vec![CLIENT_UUID.to_string()]),
+        2 => match last_id {
+            Some(id) => ("handed-out-before", vec![id.clone()]),
+            None => ("repeated-uuid", vec![CLIENT_UUID.to_string()]),
+        },
+        3 => ("client-chosen-uuid", vec![fresh(rng).to_string()]),
+        4 => ("upper-case", vec![base(rng).to_string().to_uppercase()]),
+        5 => ("braced", vec![format!("{}", base(rng).braced())]),
+        6 => ("urn", vec![format!("{}", base(rng).urn())]),
+        7 => ("no-hyphens", vec![format!("{}", base(rng).simple())]),
+        8 => ("not-a-uuid", vec![rng.pick(&["not-a-uuid", "12345", "6f1c2d3e-4a5b-4c6d-8e7f"]).to_string()]),
+        9 => ("empty", vec![String::new()]),
+        _ => {
+            let second = if rng.chance(1, 2) { CLIENT_UUID.to_string() } else { fresh(rng).to_string() };
+            ("twice", vec![CLIENT_UUID.to_string(), second])
+        }
     }
 }
 
@@ -651,13 +707,24 @@ fn observe(resp: &live::Resp) -> LiveObs {
     LiveObs { status: resp.status, xrid, saw, body_rid, leak }
 }
 
-fn live_line(cls: u8, i: u64, status: u16, own: &[String], expect: u16, o: Result<LiveObs, String>) -> Line {
-    let case = serde_json::to_value(Case::Live1 { cls, i, status, own: own.to_vec() }).unwrap();
+#[allow(clippy::too_many_arguments)]
+fn live_line(
+    cls: u8,
+    i: u64,
+    status: u16,
+    own: &[String],
+    sent: &[String],
+    sent_tag: &str,
+    expect: u16,
+    o: Result<LiveObs, String>,
+) -> Line {
+    let case =
+        serde_json::to_value(Case::Live1 { cls, i, status, own: own.to_vec(), sent: sent.to_vec() }).unwrap();
     let names = [
         "success", "success-own-id", "http-error", "http-error-own-id", "custom-error", "extractor-http",
         "extractor-custom", "route-404", "route-405", "version-policy", "to_result-failure",
     ];
-    let tags = vec![format!("live:{}", names[cls as usize])];
+    let tags = vec![format!("live:{}", names[cls as usize]), format!("client-x-request-id:{}", sent_tag)];
     match o {
         Ok(o) => {
             // a leak is reported as a missing x-request-id list: the judge
@@ -666,14 +733,16 @@ fn live_line(cls: u8, i: u64, status: u16, own: &[String], expect: u16, o: Resul
             Line {
                 group: "live",
                 case,
-                obs: json!({"status":o.status,"x-request-id":o.xrid,"handler_saw":o.saw,"body_request_id":o.body_rid,"leak":o.leak}),
+                obs: json!({"status":o.status,"x-request-id":o.xrid,"handler_saw":o.saw,"body_request_id":o.body_rid,"leak":o.leak,
+                            "client_sent":sent}),
                 coq: format!(
-                    "(CLive {} {} {} {} {} {} {})",
+                    "(CLive {} {} {} {} {} {} {} {})",
                     cls,
                     expect,
                     o.status,
                     g_list(&xr, |s| g_str(s)),
                     g_list(own, |s| g_str(s)),
+                    g_list(sent, |s| g_str(s)),
                     g_opt(&o.saw, |s| g_str(s)),
                     g_opt(&o.body_rid, |s| g_str(s))
                 ),
@@ -687,7 +756,7 @@ fn live_line(cls: u8, i: u64, status: u16, own: &[String], expect: u16, o: Resul
             obs: json!({"transport_error": e}),
             // no response could be read: not a verdict on the property; class 99 is
             // unknown to the judge, which reports the case as malformed
-            coq: format!("(CLive 99 {} 0 [] {} None None)", expect, g_list(own, |s| g_str(s))),
+            coq: format!("(CLive 99 {} 0 [] {} [] None None)", expect, g_list(own, |s| g_str(s))),
             tags,
             nontrivial: true,
         },
@@ -724,9 +793,12 @@ fn run_batch(rt: &tokio::runtime::Runtime, n: usize, seed: u64, out: &mut dyn Wr
             let mut cp = live::Conn::open(plain).ok();
             let mut cv = live::Conn::open(versioned).ok();
             let mut res = vec![];
+            // the id the server handed this client last
+            let mut last_id: Option<String> = None;
             for j in 0..per {
                 let (cls, status, own) = pick_class(&mut rng);
-                let (ver, req, expect) = live_request(cls, status, &own);
+                let (sent_tag, sent) = pick_sent(&mut rng, &last_id);
+                let (ver, req, expect) = live_request(cls, status, &own, &sent);
                 let attempt = |c: &mut Option<live::Conn>, addr| -> Result<LiveObs, String> {
                     if c.is_none() {
                         *c = live::Conn::open(addr).ok();
@@ -746,15 +818,30 @@ fn run_batch(rt: &tokio::runtime::Runtime, n: usize, seed: u64, out: &mut dyn Wr
                 if o.is_err() {
                     *slot = None;
                 }
-                res.push(((t * per + j) as u64, cls, status, own, expect, o));
+                if let Ok(ob) = &o {
+                    if let Some(l) = ob.xrid.last() {
+                        last_id = Some(l.clone());
+                    }
+                }
+                res.push(((t * per + j) as u64, cls, status, own, sent, sent_tag, expect, o));
             }
             res
         }));
     }
     let mut ids: Vec<u128> = vec![];
+    // what clients supplied, read as a UUID in any spelling uuid accepts;
+    // a value the server handed out earlier is already among `ids`
+    let mut supplied: Vec<u128> = vec![];
     let mut total = 0u64;
     for h in handles {
-        for (i, cls, status, own, expect, o) in h.join().expect("client thread") {
+        for (i, cls, status, own, sent, sent_tag, expect, o) in h.join().expect("client thread") {
+            if sent_tag != "handed-out-before" {
+                for v in &sent {
+                    if let Ok(u) = uuid::Uuid::parse_str(v) {
+                        supplied.push(u.as_u128());
+                    }
+                }
+            }
             if let Ok(ob) = &o {
                 if let Some(last) = ob.xrid.last() {
                     if let Ok(u) = uuid::Uuid::parse_str(last) {
@@ -763,10 +850,12 @@ fn run_batch(rt: &tokio::runtime::Runtime, n: usize, seed: u64, out: &mut dyn Wr
                 }
             }
             total += 1;
-            emit(out, &live_line(cls, i, status, &own, expect, o));
+            emit(out, &live_line(cls, i, status, &own, &sent, sent_tag, expect, o));
         }
     }
     ids.sort();
+    supplied.sort();
+    supplied.dedup();
     let distinct = {
         let mut d = ids.clone();
         d.dedup();
@@ -777,24 +866,31 @@ fn run_batch(rt: &tokio::runtime::Runtime, n: usize, seed: u64, out: &mut dyn Wr
         &Line {
             group: "unique",
             case: serde_json::to_value(Case::Batch { n, seed }).unwrap(),
-            obs: json!({"requests": total, "ids": ids.len(), "distinct": distinct}),
-            coq: format!("(CUnique {} {})", total, g_list(&ids, |x| g_n(*x))),
+            obs: json!({"requests": total, "ids": ids.len(), "distinct": distinct,
+                        "client_supplied_uuids": supplied.len(),
+                        "adopted_from_client": supplied.iter().filter(|u| ids.binary_search(u).is_ok()).count()}),
+            coq: format!(
+                "(CUnique {} {} {})",
+                total,
+                g_list(&ids, |x| g_n(*x)),
+                g_list(&supplied, |x| g_n(*x))
+            ),
             tags: vec!["unique-batch".into()],
             nontrivial: true,
         },
     );
 }
 
-fn run_live1(rt: &tokio::runtime::Runtime, cls: u8, i: u64, status: u16, own: &[String]) -> Line {
+fn run_live1(rt: &tokio::runtime::Runtime, cls: u8, i: u64, status: u16, own: &[String], sent: &[String]) -> Line {
     let sv = start_servers(rt);
-    let (ver, req, expect) = live_request(cls, status, own);
+    let (ver, req, expect) = live_request(cls, status, own, sent);
     let addr = if ver { sv.versioned } else { sv.plain };
     let o = std::thread::spawn(move || {
         live::roundtrip(addr, &req, false).map(|r| observe(&r)).map_err(|e| format!("{:?}", e))
     })
     .join()
     .expect("client thread");
-    live_line(cls, i, status, own, expect, o)
+    live_line(cls, i, status, own, sent, if sent.is_empty() { "none" } else { "replay" }, expect, o)
 }
 
 // ------------------------------------------------------------- generation
@@ -929,7 +1025,9 @@ fn main() {
                     match c {
                         Case::Status { lo, hi } => emit(out, &exec_status(lo, hi)),
                         Case::Ctor { k, hdrs, id } => emit(out, &exec_ctor(&rt, &k, &hdrs, &id, "ctor")),
-                        Case::Live1 { cls, i, status, own } => emit(out, &run_live1(&rt, cls, i, status, &own)),
+                        Case::Live1 { cls, i, status, own, sent } => {
+                            emit(out, &run_live1(&rt, cls, i, status, &own, &sent))
+                        }
                         Case::Batch { n, seed } => run_batch(&rt, n, seed, out),
                     }
                 }
